@@ -5,16 +5,16 @@ import json, subprocess
 G = 'TLC model checking of the bounded design model + TLC validation (GoderiveTrace.tla) of hook traces and observations recorded from the real goderive'
 CLAIMED = {
  'C01': dict(engine='G', ref='DESIGN.md 3 (C01), 11.2', technique='TLC enumeration of the type/plugin/call-site universe (GenCases.tla) + TLC validation (GoderiveTrace.tla) of hook traces and go/types observations of the real goderive on every case',
-   text='TLC enumerates every type term of constructor depth <= 2 over 13 leaves (basics, named basics, local / imported / same-named-import / recursive / embedded structs, unexported fields) x 15 plugins x 12 call-site forms restricted to Supported(plugin, T), checks WellFormed, and exports the cases; each is a real package on which the real goderive runs; TLC validates the trace (every requested helper generated exactly once, name tables and import-alias table consistent, functions in the file = generated names) and the observations (exit 0, go/types type-check incl. unused/missing imports, no unresolved call). Also every package of 2-3 calls over assignability-related types (type I1 []int, type I2 []int, []int, struct{F []int}) with distinct names and types must generate. Quick = all depth<=1 body cases + 2000 sampled of the ~190k; thorough = all depth<=2 body cases + 30000 sampled.',
+   text='TLC enumerates every type term of constructor depth <= 2 over 13 leaves (basics, named basics, local / imported / same-named-import / recursive / embedded structs, unexported fields) x 15 plugins x 16 call-site forms (one per branch of Visit in find.go for the enclosing call: builtin, conversion, declared type, qualified callee, function literal, ...) restricted to Supported(plugin, T); the leaf-type core is run in every form and again under -prefix/-pluginprefix configurations (classic names kept; overlapping plugin prefixes), checks WellFormed, and exports the cases; each is a real package on which the real goderive runs; TLC validates the trace (every requested helper generated exactly once, name tables and import-alias table consistent, functions in the file = generated names) and the observations (exit 0, go/types type-check incl. unused/missing imports, no unresolved call). Also every package of 2-3 calls over assignability-related types (type I1 []int, type I2 []int, []int, struct{F []int}) with distinct names and types must generate. Quick = all depth<=1 body cases + 2000 sampled of the ~190k; thorough = all depth<=2 body cases + 30000 sampled.',
    note='go/types with a source importer defines "type-checks". Signature-directed plugins (fmap, compose, curry ...) are covered by engine F, not here. Known findings are keyed by shrunk (plugin, type, form, failure class).'),
  'C09': dict(engine='G', ref='DESIGN.md 3 (C09), 11.2', technique='TLC enumeration of negative cases (GenCases.tla WithBad) + argument-shape matrix and broken packages run on the real goderive; TLC validation of traces and observations',
-   text='TLC enumerates type terms with exactly one chan/func/interface/unsafe.Pointer constituent at every position x 15 plugins x call-site forms; plus all 33 plugin prefixes x 66 argument-list templates (arity, mismatches, non-functions, variadic/curried signatures, unordered elements, asymmetric assignability) and 10 broken packages. TLC judges each real run: no panic or hang, exit 0 => derived.gen.go parses and type-checks, non-zero exit => a diagnostic, Add/Generate errors reach the exit status (PkgExit/RunEnd).',
+   text='TLC enumerates type terms with exactly one chan/func/interface/unsafe.Pointer constituent at every position x 15 plugins x call-site forms; plus all 33 plugin prefixes x 90 argument-list templates (incl. untyped-constant arguments, arity mismatches between compose stages) (arity, mismatches, non-functions, variadic/curried signatures, unordered elements, asymmetric assignability) and 10 broken packages. TLC judges each real run: no panic or hang, exit 0 => derived.gen.go parses and type-checks, non-zero exit => a diagnostic, Add/Generate errors reach the exit status (PkgExit/RunEnd).',
    note='"Names the call or type" is recorded as a warning only. Exit 0 with a correct file for a shape listed as unsupported is not a violation. 32 open findings (goderive accepts many unsupported shapes and emits ill-typed code).'),
- 'C07': dict(engine='G', ref='DESIGN.md 3 (C07)', technique='TLC enumeration of edit/crash histories (Regen.tla) replayed on the real generator; TLC trace validation of each regeneration run (RegenObs)',
-   text='TLC explores Regen.tla: every version of a 4-call-site package x up to 2 edits (add/remove call, retype field / argument / the map feeding a nested derive call) x one interrupted write in 5 truncation classes, and exports each history. The harness realises v1, edits to v2, truncates derived.gen.go at byte offsets of the class (all offsets in the thorough tier), runs the real generator once and compares with a scratch run; a second family replays v1->v2 edits over the packages of GoderiveMC under -autoname/-dedup and compares derived.gen.go and the rewritten user files with a scratch run; TLC judges every run trace and the RegenObs observation (exit, bytes, type-check, file removed).',
-   note='Trusted: TLC, go/types, hooks. Histories are sampled from the exported set (all single-edit ones always); the model package has 4 call sites. Genuine defects found are listed in KNOWN_FINDINGS.jsonl by minimal failing sub-history.'),
+ 'C07': dict(engine='G', ref='DESIGN.md 3 (C07)', technique='TLC enumeration of edit/crash histories (Regen.tla) and of nested-call chains with the pass loop (RegenChain.tla, stop-rule sensitivity) replayed on the real generator; TLC trace validation of each regeneration run (RegenObs)',
+   text='TLC explores Regen.tla: every version of a 5-call-site package (incl. the inner call of the nested one on its own; an external test package in the directory) x up to 2 edits (add/remove call, retype field / argument / the map feeding a nested derive call) x one interrupted write in 5 truncation classes, and exports each history. The harness realises v1, edits to v2, truncates derived.gen.go at byte offsets of the class (all offsets in the thorough tier), runs the real generator once and compares with a scratch run; a second family replays v1->v2 edits over the packages of GoderiveMC under -autoname/-dedup and compares derived.gen.go and the rewritten user files with a scratch run; TLC judges every run trace and the RegenObs observation (exit, bytes, type-check, file removed).',
+   note='Trusted: TLC, go/types, hooks. Histories are sampled from the exported set (all single-edit ones always); the model package has 5 call sites; part (B) replays flagged (-autoname/-dedup) histories over GoderiveMC packages, part (C) all 42 chain histories of RegenChain.tla with predicted pass counts compared to the recorded trace. Genuine defects found are listed in KNOWN_FINDINGS.jsonl by minimal failing sub-history.'),
  'C08': dict(engine='G', ref='DESIGN.md 3 (C08)', technique='TLC self-composition of name registration under map-order nondeterminism (Determinism.tla) + repeated real runs directed by model and trace (DetObs/CtxObs validated by TLC)',
-   text='TLC explores the self-composition of registration and helper lookup over mutually assignable argument types with nameOf\'s map-order choice resolved independently in two copies; every scenario is run repeatedly on the real binary (60/400 runs where the model or the recorded trace shows a lookup with several matches), plus a 9-plugin package and 11 ways of addressing/grouping packages on the command line; TLC decides DetObs/CtxObs (one distinct outcome).',
+   text='TLC explores the self-composition of registration and helper lookup over mutually assignable argument types with nameOf\'s map-order choice resolved independently in two copies; every scenario is run repeatedly on the real binary (60/400 runs where the model or the recorded trace shows a lookup with several matches), plus a 9-plugin package, packages under overlapping -pluginprefix configurations, a package with derive calls in seven files (with and without -autoname) and 11 ways of addressing/grouping packages on the command line; TLC decides DetObs/CtxObs (one distinct outcome).',
    note='"On every run" is statistical on the real binary (a 10% event is missed with probability 0.9^60); exhaustive only in the model. Import-path patterns (m/...) are not expanded by the gotool dependency in module mode and are not part of the variants.'),
  'C10': dict(engine='G', ref='DESIGN.md 3 (C10)', technique='TLC model checking of the file-rewrite model (UserFiles.tla) + TLC validation of directory snapshots and token-level FileObs observations of real runs',
    text='UserFiles.tla models user files as token sequences with renames and truncating/overlay writes (the overlay variant must violate FilesIntact, so the model is sensitive). Real runs over the C11 universe x 16 file layouts, a rename matrix (new name shorter/equal/longer, -dedup/-autoname/both) and failing runs (generator, syntax, type error) x 4 flag combinations are snapshotted before/after; every user file is tokenised and TLC checks: changed only if the trace renamed a call in it and a flag is set, tokens = original with exactly the renamed identifiers substituted, parses, bytes = gofmt of the substituted original.',
